@@ -90,17 +90,56 @@ def PathOK : Node → Pos → Bool
     | none => false
     | some c => stepOK k kids i c p.isEmpty && PathOK c p
 
-/-- facts about one emitted segment -/
-theorem segText_facts (k : Kind) (kids : List Node) (i : Nat) (c : Node) (lastStep : Bool)
-    (h : stepOK k kids i c lastStep = true) :
-    segText k i c ≠ [] ∧ cleanB lastStep (segText k i c) = true ∧ PlainSeg (segText k i c) := by
+/-- the part of `stepOK` that is about SPELLING only (what `tokenize` needs): a Dict child's name is
+    non-empty and only the last one may end in a backslash; sequence indexes fit `int()`'s digit limit.
+    The other part of `stepOK` — the key lookup hits the child — is what `find` adds. -/
+def stepSpell (k : Kind) (i : Nat) (c : Node) (lastStep : Bool) : Bool :=
+  match k with
+  | .scalar => false
+  | .map => !c.name.isEmpty && (lastStep || !endsWithBackslash c.name)
+  | _ => decide ((natStr i).length ≤ intMaxDigits ∨ intMaxDigits = 0)
+
+def SpellOK : Node → Pos → Bool
+  | _, [] => true
+  | .mk k _ _ kids, i :: p =>
+    match kids[i]? with
+    | none => false
+    | some c => stepSpell k i c p.isEmpty && SpellOK c p
+
+theorem stepSpell_of_stepOK (k : Kind) (kids : List Node) (i : Nat) (c : Node) (lastStep : Bool)
+    (h : stepOK k kids i c lastStep = true) : stepSpell k i c lastStep = true := by
   cases k with
   | scalar => simp [stepOK] at h
+  | list => exact h
+  | array => exact h
+  | map =>
+    simp only [stepOK, Bool.and_eq_true] at h
+    simp only [stepSpell, Bool.and_eq_true]
+    exact ⟨h.1.2, h.2⟩
+
+theorem spellOK_of_pathOK : ∀ (pos : Pos) (n : Node), PathOK n pos = true → SpellOK n pos = true
+  | [], _, _ => rfl
+  | i :: p, .mk k ky nm kids, h => by
+    simp only [PathOK] at h
+    simp only [SpellOK]
+    cases hk : kids[i]? with
+    | none => rw [hk] at h; simp at h
+    | some c =>
+      rw [hk] at h
+      simp only [Bool.and_eq_true] at h ⊢
+      exact ⟨stepSpell_of_stepOK k kids i c _ h.1, spellOK_of_pathOK p c h.2⟩
+
+/-- facts about one emitted segment -/
+theorem segText_facts (k : Kind) (i : Nat) (c : Node) (lastStep : Bool)
+    (h : stepSpell k i c lastStep = true) :
+    segText k i c ≠ [] ∧ cleanB lastStep (segText k i c) = true ∧ PlainSeg (segText k i c) := by
+  cases k with
+  | scalar => simp [stepSpell] at h
   | list => simp only [segText]; have := natStr_facts lastStep i; exact ⟨this.1, this.2.1, this.2.2.1⟩
   | array => simp only [segText]; have := natStr_facts lastStep i; exact ⟨this.1, this.2.1, this.2.2.1⟩
   | map =>
-    simp only [stepOK, Bool.and_eq_true, Bool.not_eq_true', Bool.or_eq_true, beq_iff_eq] at h
-    obtain ⟨⟨_, h2⟩, h4⟩ := h
+    simp only [stepSpell, Bool.and_eq_true, Bool.not_eq_true', Bool.or_eq_true] at h
+    obtain ⟨h2, h4⟩ := h
     have hne : c.name ≠ [] := by
       intro e; rw [e] at h2; simp at h2
     have he : lastStep = true ∨ endsWithBackslash c.name = false := h4
@@ -108,22 +147,22 @@ theorem segText_facts (k : Kind) (kids : List Node) (i : Nat) (c : Node) (lastSt
     simp only [segText]
     exact ⟨this.1, this.2.1, this.2.2.1⟩
 
-theorem segs_nil_iff (n : Node) (pos : Pos) (h : PathOK n pos = true) : segs n pos = [] ↔ pos = [] := by
+theorem segs_nil_iff (n : Node) (pos : Pos) (h : SpellOK n pos = true) : segs n pos = [] ↔ pos = [] := by
   cases pos with
   | nil => simp [segs]
   | cons i p =>
     cases n with | mk k ky nm kids =>
-    simp only [PathOK] at h
+    simp only [SpellOK] at h
     simp only [segs]
     cases hk : kids[i]? with
     | none => rw [hk] at h; simp at h
     | some c => simp
 
-theorem segs_ok : ∀ (pos : Pos) (n : Node), PathOK n pos = true → pos ≠ [] →
+theorem segs_ok : ∀ (pos : Pos) (n : Node), SpellOK n pos = true → pos ≠ [] →
     SegsOK (segs n pos) ∧ ∀ x ∈ segs n pos, PlainSeg x
   | [], _, _, h => absurd rfl h
   | i :: p, .mk k ky nm kids, hok, _ => by
-    simp only [PathOK] at hok
+    simp only [SpellOK] at hok
     simp only [segs]
     cases hk : kids[i]? with
     | none => rw [hk] at hok; simp at hok
@@ -131,7 +170,7 @@ theorem segs_ok : ∀ (pos : Pos) (n : Node), PathOK n pos = true → pos ≠ []
       rw [hk] at hok
       simp only [Bool.and_eq_true] at hok ⊢
       obtain ⟨hstep, hrest⟩ := hok
-      have hf := segText_facts k kids i c p.isEmpty hstep
+      have hf := segText_facts k i c p.isEmpty hstep
       cases p with
       | nil =>
         simp only [segs, List.isEmpty_nil] at hf ⊢
@@ -173,16 +212,16 @@ theorem get?_append_single : ∀ (el : Pos) (root n : Node) (i : Nat), root.get?
       simp only at h ⊢
       exact get?_append_single el c n i h
 
-theorem unescape_segText (k : Kind) (kids : List Node) (i : Nat) (c : Node) (lastStep : Bool)
-    (h : stepOK k kids i c lastStep = true) :
+theorem unescape_segText (k : Kind) (i : Nat) (c : Node) (lastStep : Bool)
+    (h : stepSpell k i c lastStep = true) :
     unescape (segText k i c) = if k == .list || k == .array then natStr i else c.name := by
   cases k with
-  | scalar => simp [stepOK] at h
+  | scalar => simp [stepSpell] at h
   | list => simp only [segText]; exact (natStr_facts lastStep i).2.2.2
   | array => simp only [segText]; exact (natStr_facts lastStep i).2.2.2
   | map =>
-    simp only [stepOK, Bool.and_eq_true, Bool.not_eq_true', Bool.or_eq_true, beq_iff_eq] at h
-    obtain ⟨⟨_, h2⟩, h4⟩ := h
+    simp only [stepSpell, Bool.and_eq_true, Bool.not_eq_true', Bool.or_eq_true] at h
+    obtain ⟨h2, h4⟩ := h
     have hne : c.name ≠ [] := by
       intro e; rw [e] at h2; simp at h2
     have := escapeName_facts lastStep c.name hne h4
@@ -193,7 +232,7 @@ theorem unescape_segText (k : Kind) (kids : List Node) (i : Nat) (c : Node) (las
 theorem index_segText (k : Kind) (ky nm : Str) (kids : List Node) (i : Nat) (c : Node) (lastStep : Bool)
     (hk : kids[i]? = some c) (h : stepOK k kids i c lastStep = true) :
     (Node.mk k ky nm kids).index (some (unescape (segText k i c))) = some i := by
-  rw [unescape_segText k kids i c lastStep h]
+  rw [unescape_segText k i c lastStep (stepSpell_of_stepOK k kids i c lastStep h)]
   have hi : i < kids.length := by
     rcases Nat.lt_or_ge i kids.length with h | h
     · exact h
@@ -242,7 +281,7 @@ theorem tokenize_slash : tokenize ['/'] = .ok [.top] := by
   simp [tokLoop, tokStep_slash_first]
 
 /-- **`tokenize(fq_name(pos))`**: TOP and one NAME per step, carrying the unescaped segment -/
-theorem tokenize_fqName (root : Node) (pos : Pos) (hok : PathOK root pos = true) :
+theorem tokenize_fqName (root : Node) (pos : Pos) (hok : SpellOK root pos = true) :
     tokenize (fqName root pos)
       = .ok (Op.top :: (segs root pos).map (fun s => Op.name (some (unescape s)))) := by
   cases pos with
@@ -290,7 +329,7 @@ theorem eval_fq (root : Node) (start pos : Pos) (strict : Bool) (hok : PathOK ro
 theorem find_fq (root : Node) (start pos : Pos) (strict : Bool) (hok : PathOK root pos = true) :
     find root start (fqName root pos) false strict = .many [pos] := by
   unfold find
-  rw [tokenize_fqName root pos hok]
+  rw [tokenize_fqName root pos (spellOK_of_pathOK pos root hok)]
   simp only [eval_fq root start pos strict hok]
   rfl
 
@@ -298,7 +337,7 @@ theorem find_fq (root : Node) (start pos : Pos) (strict : Bool) (hok : PathOK ro
 theorem find_one_fq (root : Node) (start pos : Pos) (strict : Bool) (hok : PathOK root pos = true) :
     find root start (fqName root pos) true strict = .one (some pos) := by
   unfold find
-  rw [tokenize_fqName root pos hok]
+  rw [tokenize_fqName root pos (spellOK_of_pathOK pos root hok)]
   simp only [eval_fq root start pos strict hok]
   rfl
 
@@ -379,6 +418,211 @@ theorem find_fq_addressable (root : Node) (hinv : TreeInv root) (start pos : Pos
     (ha : addressable root pos = true) :
     find root start (fqName root pos) false strict = .many [pos] :=
   find_fq root start pos strict (pathOK_of_addressableFrom root hinv pos root [] rfl ha)
+
+/-! ### the converse: on spellable positions `addressable` is necessary too -/
+
+theorem findName_some_key (s : Str) : ∀ (kids : List Node) (i : Nat), findName s kids = some i →
+    ∃ c, kids[i]? = some c ∧ c.key = s
+  | [], i, h => by simp [findName] at h
+  | k :: r, i, h => by
+    simp only [findName] at h
+    by_cases hk : (k.key == s) = true
+    · simp only [hk, if_true, Option.some.injEq] at h
+      subst h
+      exact ⟨k, rfl, by simpa using hk⟩
+    · simp only [hk, if_false, Option.map_eq_some_iff, Bool.false_eq_true] at h
+      obtain ⟨j, hj, rfl⟩ := h
+      obtain ⟨c, hc, hkey⟩ := findName_some_key s r j hj
+      exact ⟨c, by simpa using hc, hkey⟩
+
+/-- a context over NAME ops only ends where it started plus one index per op -/
+theorem runCtx_names_found (root : Node) (strict : Bool) : ∀ (names : List Str) (el p : Pos),
+    runCtx root strict (names.map (fun s => Op.name (some s))) el = .ok (.found p) →
+    ∃ t, p = el ++ t ∧ t.length = names.length
+  | [], el, p, h => by
+    simp only [List.map_nil, runCtx, Except.ok.injEq, CtxRes.found.injEq] at h
+    exact ⟨[], by simp [h], rfl⟩
+  | s :: r, el, p, h => by
+    simp only [List.map_cons, runCtx] at h
+    cases hi : indexAt root el (some s) with
+    | none => rw [hi] at h; cases strict <;> simp at h
+    | some j =>
+      rw [hi] at h
+      obtain ⟨t, ht, hl⟩ := runCtx_names_found root strict r (el ++ [j]) p h
+      exact ⟨j :: t, by simp [ht], by simp [hl]⟩
+
+/-- if evaluating the emitted names from `el` finds exactly `el ++ pos`, every lookup on the way hit
+    its own child: `PathOK` -/
+theorem pathOK_of_found (root : Node) (strict : Bool) : ∀ (pos : Pos) (n : Node) (el : Pos),
+    SpellOK n pos = true → root.get? el = some n →
+    runCtx root strict ((segs n pos).map (fun s => Op.name (some (unescape s)))) el
+      = .ok (.found (el ++ pos)) →
+    PathOK n pos = true
+  | [], _, _, _, _, _ => rfl
+  | i :: p, .mk k ky nm kids, el, hs, hg, hr => by
+    simp only [SpellOK] at hs
+    simp only [PathOK]
+    simp only [segs] at hr
+    cases hk : kids[i]? with
+    | none => rw [hk] at hs; simp at hs
+    | some c =>
+      rw [hk] at hs hr
+      simp only [Bool.and_eq_true] at hs ⊢
+      obtain ⟨hstep, hrest⟩ := hs
+      simp only [List.map_cons, runCtx] at hr
+      cases hi : indexAt root el (some (unescape (segText k i c))) with
+      | none => rw [hi] at hr; cases strict <;> simp at hr
+      | some j =>
+        rw [hi] at hr
+        simp only [] at hr
+        have hr' : runCtx root strict (((segs c p).map unescape).map (fun s => Op.name (some s))) (el ++ [j])
+            = .ok (.found (el ++ i :: p)) := by
+          simpa [List.map_map, Function.comp_def] using hr
+        obtain ⟨t, ht, _⟩ := runCtx_names_found root strict _ (el ++ [j]) _ hr'
+        have hij : i = j := by
+          have : i :: p = j :: t := by
+            have h2 : el ++ (i :: p) = el ++ (j :: t) := by rw [ht]; simp
+            exact List.append_cancel_left h2
+          exact (List.cons.inj this).1
+        subst hij
+        have hg' : root.get? (el ++ [i]) = some c := by
+          rw [get?_append_single el root _ i hg]
+          simp [Node.kids, hk]
+        have hr2 : runCtx root strict ((segs c p).map (fun s => Op.name (some (unescape s)))) (el ++ [i])
+            = .ok (.found ((el ++ [i]) ++ p)) := by
+          rw [hr]; simp
+        refine ⟨?_, pathOK_of_found root strict p c (el ++ [i]) hrest hg' hr2⟩
+        cases k with
+        | scalar => simp [stepSpell] at hstep
+        | list => exact hstep
+        | array => exact hstep
+        | map =>
+          simp only [stepSpell, Bool.and_eq_true] at hstep
+          simp only [stepOK, Bool.and_eq_true, beq_iff_eq]
+          refine ⟨⟨?_, hstep.1⟩, hstep.2⟩
+          rw [unescape_segText .map i c p.isEmpty (by simp only [stepSpell, Bool.and_eq_true]; exact hstep)] at hi
+          simpa [indexAt, hg, Node.index, Node.kind, Node.kids] using hi
+
+/-- `find(fq_name(pos)) = [pos]` forces `PathOK`, on spellable positions -/
+theorem pathOK_of_find_fq (root : Node) (start pos : Pos) (strict : Bool) (hs : SpellOK root pos = true)
+    (hf : find root start (fqName root pos) false strict = .many [pos]) : PathOK root pos = true := by
+  unfold find at hf
+  rw [tokenize_fqName root pos hs] at hf
+  have hz : Flatland.C14.Proofs.NoZero (Op.top :: (segs root pos).map (fun s => Op.name (some (unescape s)))) = true := by
+    have := names_noZero (segs root pos)
+    simp only [Flatland.C14.Proofs.NoZero, List.all_cons, Bool.and_eq_true] at this ⊢
+    exact ⟨rfl, this⟩
+  have hw := Flatland.C14.Proofs.work_level root strict _ _ (Nat.le_refl _) (Or.inl hz) [start]
+  simp only [List.map_cons, List.map_nil] at hw
+  simp only [evalOps, hw] at hf
+  simp only [Flatland.C14.Spec.flatMapM, Flatland.C14.Proofs.denOps_of_runCtx, runCtx] at hf
+  apply pathOK_of_found root strict pos root [] hs rfl
+  cases hr : runCtx root strict ((segs root pos).map (fun s => Op.name (some (unescape s)))) [] with
+  | error e => rw [hr] at hf; simp at hf
+  | ok r =>
+    rw [hr] at hf
+    cases r with
+    | found p =>
+      simp only [Bool.not_false, if_true, FindRes.many.injEq, List.cons.injEq, and_true,
+        List.append_nil] at hf
+      simp [hf]
+    | dead => simp at hf
+    | spawn rest kids =>
+      have := Flatland.C14.Proofs.runCtx_shape root strict ((segs root pos).map (fun s => Op.name (some (unescape s)))) []
+      rw [hr] at this
+      have hnone : Flatland.C14.Proofs.afterSlice ((segs root pos).map (fun s => Op.name (some (unescape s)))) = none := by
+        generalize segs root pos = l
+        induction l with
+        | nil => rfl
+        | cons a r ih => simpa [Flatland.C14.Proofs.afterSlice] using ih
+      rw [hnone] at this
+      exact absurd this (by simp)
+
+theorem addressableFrom_of_pathOK : ∀ (pos : Pos) (n : Node), PathOK n pos = true → addressableFrom n pos = true
+  | [], _, _ => rfl
+  | i :: p, .mk k ky nm kids, h => by
+    simp only [PathOK] at h
+    simp only [addressableFrom]
+    cases hk : kids[i]? with
+    | none => rw [hk] at h; simp at h
+    | some c =>
+      rw [hk] at h
+      simp only [Bool.and_eq_true] at h ⊢
+      refine ⟨?_, addressableFrom_of_pathOK p c h.2⟩
+      cases k with
+      | scalar => simp [stepOK] at h
+      | list => simp
+      | array => simp
+      | map =>
+        have h1 := h.1
+        simp only [stepOK, Bool.and_eq_true, beq_iff_eq] at h1
+        obtain ⟨c', hc', hkey⟩ := findName_some_key c.name kids i h1.1.1
+        rw [hk] at hc'
+        simp only [Option.some.injEq] at hc'
+        subst hc'
+        simp only [bne_self_eq_false, Bool.false_or, Bool.and_eq_true, beq_iff_eq]
+        exact ⟨⟨hkey, h1.1.2⟩, h1.2⟩
+
+theorem spellOK_of_spellableFrom (root : Node) (hinv : TreeInv root) : ∀ (pos : Pos) (n : Node) (el : Pos),
+    root.get? el = some n → spellableFrom n pos = true → SpellOK n pos = true
+  | [], _, _, _, _ => rfl
+  | i :: p, .mk k ky nm kids, el, hg, ha => by
+    simp only [spellableFrom] at ha
+    simp only [SpellOK]
+    cases hk : kids[i]? with
+    | none => rw [hk] at ha; simp at ha
+    | some c =>
+      rw [hk] at ha
+      simp only [Bool.and_eq_true] at ha ⊢
+      obtain ⟨hname, hrest⟩ := ha
+      obtain ⟨h1, _, h3⟩ := hinv el k ky nm kids hg
+      have hi : i < kids.length := by
+        rcases Nat.lt_or_ge i kids.length with h | h
+        · exact h
+        · rw [List.getElem?_eq_none h] at hk; cases hk
+      have hg' : root.get? (el ++ [i]) = some c := by
+        rw [get?_append_single el root _ i hg]
+        simp [Node.kids, hk]
+      refine ⟨?_, spellOK_of_spellableFrom root hinv p c (el ++ [i]) hg' hrest⟩
+      cases k with
+      | scalar => have := h1 rfl; subst this; simp at hk
+      | list => simp only [stepSpell, decide_eq_true_eq]; exact h3 (Or.inl rfl) i hi
+      | array => simp only [stepSpell, decide_eq_true_eq]; exact h3 (Or.inr rfl) i hi
+      | map => simpa [stepSpell] using hname
+
+/-- **`addressable` is exact on spellable positions**: on a tree with the library's invariants, for a
+    position whose Dict names can be spelled (non-empty, no backslash at the end of a non-final one),
+    `find(fq_name(pos))` from any start returns exactly `[pos]` IF AND ONLY IF the position is
+    `addressable` — i.e. iff every Dict child on the way is stored under its own name. -/
+theorem find_fq_iff (root : Node) (hinv : TreeInv root) (start pos : Pos) (strict : Bool)
+    (hs : spellable root pos = true) :
+    find root start (fqName root pos) false strict = .many [pos] ↔ addressable root pos = true := by
+  have hsp := spellOK_of_spellableFrom root hinv pos root [] rfl hs
+  constructor
+  · intro hf
+    exact addressableFrom_of_pathOK pos root (pathOK_of_find_fq root start pos strict hsp hf)
+  · exact find_fq_addressable root hinv start pos strict
+
+/-- the general form of KF-C13-c: EVERY element on a spellable position below a Dict child that is
+    stored under a key different from its name (anywhere on the way) breaks the law, from every start -/
+theorem C13_key_mismatch_fails (root : Node) (hinv : TreeInv root) (start pos : Pos)
+    (hs : spellable root pos = true) (hna : addressable root pos = false) :
+    isInverseAt root start pos = false := by
+  unfold isInverseAt
+  have h : ¬ find root start (fqName root pos) false true = .many [pos] := by
+    intro hf
+    have := (find_fq_iff root hinv start pos true hs).1 hf
+    rw [hna] at this; cases this
+  cases hf : find root start (fqName root pos) false true with
+  | many l =>
+    match l with
+    | [] => rfl
+    | [p] =>
+      simp only [beq_eq_false_iff_ne, ne_eq]
+      intro e; subst e; exact h hf
+    | _ :: _ :: _ => rfl
+  | one _ => rfl
+  | err _ => rfl
 
 /-! ### the unrestricted law and why it fails -/
 
@@ -530,5 +774,72 @@ theorem C13_full_fails_key : ¬ Inverse witnessKey := by
   rw [hw] at hinv
   revert hinv
   decide
+
+/-! ### the general theorems instantiated -/
+
+/-- KF-C13-c as an INSTANCE of the general theorem (no evaluation of the tokenizer needed): the
+    witness position is spellable and not addressable -/
+theorem C13_full_fails_key_general : ¬ Inverse witnessKey := by
+  intro h
+  have h1 := h.2 [] [0] rfl rfl
+  rw [C13_key_mismatch_fails witnessKey witnessKey_inv [] [0] (by decide) (by decide)] at h1
+  cases h1
+
+/-- a larger tree of the same class: Dict r { a: Dict { List l [ x stored under key "k" but named "n" ] } };
+    the mismatch sits two levels above the subject, seen from a start below the root -/
+def witnessKeyDeep : Node :=
+  .mk .map ['r'] ['r'] [.mk .map ['a'] ['b'] [.mk .list ['l'] ['l'] [.mk .scalar [] [] [], .mk .scalar [] [] []]]]
+
+theorem witnessKeyDeep_inv : TreeInv witnessKeyDeep := by
+  intro p k ky nm kids h
+  match p, h with
+  | [], h =>
+    simp only [witnessKeyDeep, Node.get?, Option.some.injEq, Node.mk.injEq] at h
+    obtain ⟨rfl, rfl, rfl, rfl⟩ := h
+    refine ⟨by simp, ?_, by simp⟩
+    intro _ i c hc
+    match i, hc with
+    | 0, hc => simp at hc; subst hc; simp [findName, Node.key]
+  | [0], h =>
+    simp only [witnessKeyDeep, Node.get?, List.getElem?_cons_zero, Option.some.injEq, Node.mk.injEq] at h
+    obtain ⟨rfl, rfl, rfl, rfl⟩ := h
+    refine ⟨by simp, ?_, by simp⟩
+    intro _ i c hc
+    match i, hc with
+    | 0, hc => simp at hc; subst hc; simp [findName, Node.key]
+  | [0, 0], h =>
+    simp only [witnessKeyDeep, Node.get?, List.getElem?_cons_zero, Option.some.injEq, Node.mk.injEq] at h
+    obtain ⟨rfl, rfl, rfl, rfl⟩ := h
+    refine ⟨by simp, by simp, ?_⟩
+    intro _ i hi
+    left
+    simp only [List.length_cons, List.length_nil] at hi
+    match i, hi with
+    | 0, _ => simp [natStr, intMaxDigits]
+    | 1, _ => simp [natStr, intMaxDigits]
+  | [0, 0, 0], h =>
+    simp only [witnessKeyDeep, Node.get?, List.getElem?_cons_zero, Option.some.injEq, Node.mk.injEq] at h
+    obtain ⟨rfl, rfl, rfl, rfl⟩ := h
+    exact ⟨by simp, by simp, by simp⟩
+  | [0, 0, 1], h =>
+    simp only [witnessKeyDeep, Node.get?, List.getElem?_cons_zero, List.getElem?_cons_succ,
+      Option.some.injEq, Node.mk.injEq] at h
+    obtain ⟨rfl, rfl, rfl, rfl⟩ := h
+    exact ⟨by simp, by simp, by simp⟩
+  | 0 :: 0 :: (_ + 2) :: _, h => simp [witnessKeyDeep, Node.get?] at h
+  | 0 :: 0 :: 0 :: _ :: _, h => simp [witnessKeyDeep, Node.get?] at h
+  | 0 :: 0 :: 1 :: _ :: _, h => simp [witnessKeyDeep, Node.get?] at h
+  | 0 :: (_ + 1) :: _, h => simp [witnessKeyDeep, Node.get?] at h
+  | (_ + 1) :: _, h => simp [witnessKeyDeep, Node.get?] at h
+
+/-- non-vacuity of `find_fq_iff` in both directions on one tree: the root is spellable and addressable
+    (the law holds), the list member `[0,0,1]` is spellable and NOT addressable (the law fails, from the
+    start `[0]`) -/
+example : (find witnessKeyDeep [0] (fqName witnessKeyDeep []) false true = .many [[]]) ∧
+    ¬ (find witnessKeyDeep [0] (fqName witnessKeyDeep [0, 0, 1]) false true = .many [[0, 0, 1]]) :=
+  ⟨(find_fq_iff witnessKeyDeep witnessKeyDeep_inv [0] [] true (by decide)).2 (by decide),
+   fun h => by
+     have := (find_fq_iff witnessKeyDeep witnessKeyDeep_inv [0] [0, 0, 1] true (by decide)).1 h
+     revert this; decide⟩
 
 end Flatland.C13.Proofs
